@@ -36,6 +36,9 @@ var externals = make(map[string]externalFn)
 func init() {
 	for k, v := range map[string]externalFn{
 		"(reflect.Value).Bool":         ext۰reflect۰Value۰Bool,
+		"(reflect.Value).Bytes":        ext۰reflect۰Value۰Bytes,
+		"(reflect.Value).Convert":      ext۰reflect۰Value۰Convert,
+		"(reflect.Value).CanConvert":   ext۰reflect۰Value۰CanConvert,
 		"(reflect.Value).CanAddr":      ext۰reflect۰Value۰CanAddr,
 		"errors.As":                    extErrorsAs,
 		"errors.Is":                    extErrorsIs,
